@@ -335,6 +335,8 @@ pub fn parse_case(case: &str) -> Option<(u64, Vec<Line>)> {
 struct Render {
     rng: Rng,
     out: String,
+    /// render for the real `yash3` binary: the probe built-ins are shell functions there
+    real: bool,
 }
 impl Render {
     /// separator between commands of a list: newline, `;`, with optional blanks/comments
@@ -441,6 +443,11 @@ impl Render {
             Cmd::SetE(false) => self.simple(&["set".into(), "+e".into()]),
             Cmd::Call(n) => self.simple(&[n.to_string()]),
             Cmd::Unknown => self.simple(&["no_such_command_xyz".into()]),
+            Cmd::Tick(c, k) if self.real => {
+                // the shell-function `tick` takes the bound in unary
+                let unary = if *k == 0 { "''".to_string() } else { "x".repeat(*k as usize) };
+                self.simple(&["tick".into(), c.to_string(), unary])
+            }
             Cmd::Tick(c, k) => self.simple(&["tick".into(), c.to_string(), k.to_string()]),
             Cmd::Group(l) => {
                 self.out.push('{');
@@ -573,7 +580,7 @@ impl Render {
                 let text = b
                     .iter()
                     .map(|it| {
-                        let mut inner = Render { rng: Rng::new(1), out: String::new() };
+                        let mut inner = Render { rng: Rng::new(1), out: String::new(), real: self.real };
                         inner.item(it);
                         inner.out.replace("\\\n", "").replace('\n', "; ").replace('\t', " ")
                     })
@@ -595,7 +602,20 @@ impl Render {
 }
 
 pub fn render(seed: u64, lines: &[Line]) -> String {
-    let mut r = Render { rng: Rng::new(seed ^ 0x5EED), out: String::new() };
+    render_with(seed, lines, false)
+}
+
+/// The probe built-ins as shell functions, for the real `yash3` binary (which has none of them):
+/// `probe M` prints `$?` and M through `typeset -p` and returns the `$?` it found.
+pub const REAL_PROLOGUE: &str = "probe() { _s=$?; _m=$1; typeset -gp _s _m; return $_s; }\n\
+st() { return $1; }\n\
+ok() { return 0; }\n\
+tick() { eval \"_v=\\$_t$1\"; case \"$_v\" in (\"$2\"*) return 1;; esac; eval \"_t$1=x\\$_v\"; return 0; }\n\
+errf() { probe 77; }\n\
+readonly ro=0\n";
+
+pub fn render_with(seed: u64, lines: &[Line], real: bool) -> String {
+    let mut r = Render { rng: Rng::new(seed ^ 0x5EED), out: String::new(), real };
     for l in lines {
         match l {
             Line::Cmds(l) => r.list(l),
@@ -947,6 +967,95 @@ pub fn observe(seed: u64, lines: &[Line]) -> String {
         trace.push(format!("{m}:{st}"));
     }
     format!("trace={} status={}", trace.join(","), o.exit_status)
+}
+
+/// Where the real binary is built: next to the harness's own build output.
+fn yash3_build() -> Option<String> {
+    let repo = std::env::var("VERIF_REPO").unwrap_or_else(|_| "/repo".into());
+    let target = match std::env::var("CARGO_TARGET_DIR") {
+        Ok(t) => format!("{t}/yash-cli"),
+        Err(_) => "/verif/harness/target/yash-cli".to_string(),
+    };
+    let out = std::process::Command::new("cargo")
+        .args(["build", "--offline", "-p", "yash-cli", "--manifest-path"])
+        .arg(format!("{repo}/Cargo.toml"))
+        .arg("--target-dir")
+        .arg(&target)
+        .env_remove("CARGO_TARGET_DIR")
+        .output()
+        .ok()?;
+    if !out.status.success() {
+        eprintln!("{}", String::from_utf8_lossy(&out.stderr));
+        return None;
+    }
+    Some(format!("{target}/debug/yash3"))
+}
+
+thread_local! {
+    static YASH3: std::cell::RefCell<Option<Option<String>>> = const { std::cell::RefCell::new(None) };
+}
+
+/// Path of the real `yash3` binary built from the repository under test (built once per process).
+pub fn yash3() -> Option<String> {
+    YASH3.with(|c| {
+        let mut c = c.borrow_mut();
+        if c.is_none() {
+            *c = Some(yash3_build());
+        }
+        c.clone().unwrap()
+    })
+}
+
+/// Runs the program with the REAL shell binary (`yash3 -c …`, i.e. through `yash_cli::main`) in a
+/// scratch directory; same observation format as [`observe`].
+pub fn observe_real(seed: u64, lines: &[Line]) -> String {
+    use std::io::Read as _;
+    let Some(bin) = yash3() else { return "NO-BINARY".into() };
+    let src = format!("{}{}", REAL_PROLOGUE, render_with(seed, lines, true));
+    let dir = std::env::temp_dir().join(format!("yverif-c10-{}", std::process::id()));
+    let _ = std::fs::create_dir_all(&dir);
+    let mut cmd = std::process::Command::new(bin);
+    cmd.arg("-c").arg(&src).current_dir(&dir).env_clear().env("PATH", "/nonexistent");
+    cmd.stdin(std::process::Stdio::null())
+        .stdout(std::process::Stdio::piped())
+        .stderr(std::process::Stdio::null());
+    let Ok(mut child) = cmd.spawn() else { return "SPAWN-FAILED".into() };
+    let mut stdout = child.stdout.take().unwrap();
+    let reader = std::thread::spawn(move || {
+        let mut buf = String::new();
+        let _ = stdout.read_to_string(&mut buf);
+        buf
+    });
+    let start = std::time::Instant::now();
+    let status = loop {
+        match child.try_wait() {
+            Ok(Some(st)) => break st,
+            Ok(None) if start.elapsed().as_secs() > 20 => {
+                let _ = child.kill();
+                let _ = child.wait();
+                return "TIMEOUT".into();
+            }
+            Ok(None) => std::thread::sleep(std::time::Duration::from_millis(1)),
+            Err(_) => return "WAIT-FAILED".into(),
+        }
+    };
+    let out = reader.join().unwrap_or_default();
+    let _ = std::fs::remove_dir_all(&dir);
+    // lines come in pairs: `typeset _s=<status>` / `typeset _m=<marker>`
+    let mut trace = vec![];
+    let mut st = String::new();
+    for line in out.lines() {
+        if let Some(v) = line.strip_prefix("typeset _s=") {
+            st = v.to_string();
+        } else if let Some(v) = line.strip_prefix("typeset _m=") {
+            trace.push(format!("{v}:{st}"));
+        } else {
+            return format!("GARBLED({line})");
+        }
+    }
+    use std::os::unix::process::ExitStatusExt as _;
+    let code = status.code().unwrap_or_else(|| 128 + status.signal().unwrap_or(0));
+    format!("trace={} status={}", trace.join(","), code)
 }
 
 pub fn run_case(case: &str) -> String {
